@@ -9,7 +9,7 @@ import (
 
 func init() {
 	register("C03", "sched", &PartDef{
-		Rule:  "rd in {2,3}: all histories of length <=2 (length 3 for LRU(2) at rd=2 in quick; thorough: length <=3 for every plain cache kind x capacity) over {Read(2), Read(all), ReadByte, Seek(b0,0), Seek(b1,0), Seek(b2,0), Seek(b2,1)} with the cache attached up front, plus the same histories with SetCache after the first operation, for cache kinds {LRU,FIFO,Random} (thorough adds the StatsRecorder wrappers) x capacity {1,2} on file [3 1 2]+EOF (thorough adds [2 0 3]); all schedules up to preemption bound 2 with HB state caching (the length <=2 histories at rd=2 also with a scheduling point after every unlock), Random's eviction order being an explorer choice; oracle = flat model on every operation (bytes, EOF, LastChunk) + no deadlock, panic, ErrContaminatedCache or goroutine left after Close.",
+		Rule:  "rd in {2,3}: all histories of length <=2 (length 3 for LRU(2) at rd=2 in quick; thorough: length <=3 for every plain cache kind x capacity at rd=2 on the first file) over {Read(2), Read(all), ReadByte, Seek(b0,0), Seek(b1,0), Seek(b2,0), Seek(b2,1)} with the cache attached up front, plus the same histories with SetCache after the first operation, for cache kinds {LRU,FIFO,Random} (thorough adds the StatsRecorder wrappers) x capacity {1,2} on file [3 1 2]+EOF (thorough adds [2 0 3]); all schedules up to preemption bound 2 with HB state caching (the length <=2 histories at rd=2 also with a scheduling point after every unlock), Random's eviction order being an explorer choice; oracle = flat model on every operation (bytes, EOF, LastChunk) + no deadlock, panic, ErrContaminatedCache or goroutine left after Close.",
 		Gen:   c03gen,
 		Build: readerBuild,
 	})
@@ -31,8 +31,8 @@ func c03gen(tier string) []Spec {
 			for _, cp := range []int{1, 2} {
 				for _, rd := range []int{2, 3} {
 					ml := 3
-					if len(k) > 6 || rd == 3 && cp == 2 {
-						ml = 2
+					if len(k) > 6 || rd == 3 {
+						ml = 2 // length 3: plain kinds at rd=2 (sized to about two hours on 16 cores)
 					}
 					cfgs = append(cfgs, cfg{k, cp, rd, ml, true})
 				}
@@ -43,10 +43,10 @@ func c03gen(tier string) []Spec {
 	}
 	var specs []Spec
 	for _, h := range histories(menu, 3) {
-		for _, lens := range files {
+		for fi, lens := range files {
 			for _, c := range cfgs {
-				if len(h) > c.maxLen {
-					continue
+				if len(h) > c.maxLen || len(h) == 3 && fi > 0 {
+					continue // length 3 on the first file only
 				}
 				specs = append(specs, rspec(rParams{Lens: lens, Marker: true, RD: c.rd, Cache: c.kind, Cap: c.cp, Ops: h}, 2))
 				if c.late && len(h) == 2 {
